@@ -33,9 +33,13 @@ for d in sorted(glob.glob(os.path.join(HERE, "seeded", "*"))):
         r = subprocess.run([os.path.join(HERE, "check"), prop, "--tier", a.tier, "--no-evidence", "--jobs", a.jobs],
                            env=dict(os.environ, VERIF_REPO=scratch), capture_output=True, text=True, cwd=HERE)
         keys = [l.split(" count=")[0].replace("violation key=", "") for l in r.stdout.splitlines() if l.startswith("violation key=")]
-        ok = (r.returncode == 1) == expected
+        detected = r.returncode == 1 and any(l.startswith("VIOLATION property=%s " % prop) for l in r.stdout.splitlines())
+        if r.returncode not in (0, 1) or (r.returncode == 1 and not detected):
+            print("%-50s %s exit=%d: the check itself failed (no verdict)" % (name, prop, r.returncode),
+                  [l[:200] for l in r.stdout.splitlines() if l.startswith("MACHINERY")][:2])
+        ok = detected == expected
         print("%-50s %s exit=%d %5.1fs %s%s" % (name, prop, r.returncode, time.time() - t0,
-                                               "detected" if r.returncode == 1 else "NOT detected",
+                                               "detected" if detected else "NOT detected",
                                                "" if ok else "   <-- UNEXPECTED"), keys[:2])
         if not ok:
             bad += 1
@@ -44,7 +48,7 @@ for d in sorted(glob.glob(os.path.join(HERE, "seeded", "*"))):
             meta["verif_head"] = head
             meta["checks"] = {prop: {"tier": a.tier, "exit": r.returncode, "wall_s": round(time.time() - t0, 1),
                                      "lines": [l[:400] for l in r.stdout.splitlines() if l.startswith(("VIOLATION", "violation key", "MACHINERY"))][:8]}}
-            meta["detected_by"] = [prop] if r.returncode == 1 else []
+            meta["detected_by"] = [prop] if detected else []
             json.dump(meta, open(os.path.join(d, "meta.json"), "w"), indent=1)
     finally:
         subprocess.call(["git", "-C", "/repo", "worktree", "remove", "--force", scratch])
